@@ -1,7 +1,8 @@
-(* Result shape (C08), fourth part: the elimination rules.  Benham and Tideman alternative over Model/Hybrids.v (with the
-   repaired elimination step, fx = true: what /repo HEAD runs): the answer is one plain candidate of the votes or - Benham -
-   one tie object of the last two, and the only other outcome is the declared refusal NotImplementedError; Baldwin over
-   Model/Elimination.v: always exactly n entries in shape, no refusal at all. *)
+(* Result shape (C08), fourth part: the elimination rules.  Benham over Model/Hybrids.v (repaired elimination step, fx = true;
+   repaired for a candidate that stands alone, sc = true): the answer is one plain candidate of the votes or one tie object of
+   the last two, and the only other outcome is the declared refusal NotImplementedError; the possible outcomes of one tier of
+   the Tideman alternative (the tiers together: Proofs/HybridTiers_proofs.v); Baldwin over Model/Elimination.v: always exactly
+   n entries in shape, no refusal at all. *)
 From Coq Require Import ZArith QArith List Bool Lia Permutation Arith.
 From VL Require Import Prelude.PyDict Model.GetNBest Model.Convert Model.STV Model.Condorcet Model.Hybrids
      Proofs.GetNBest_proofs Proofs.QOrd Proofs.Condorcet_proofs Proofs.Smith_proofs Proofs.Shape_proofs Proofs.Shape2_proofs
@@ -41,25 +42,36 @@ Qed.
 Section BENHAM_SHAPE.
   Variable votes : rvotes.
   Hypothesis Hwf : wf_votes votes = true.
-  Hypothesis Hne : pairwise votes <> [].
 
   Definition bgood (x : hres) : Prop := (exists r, x = H_ok r /\ nform (cands_of votes) 1 r) \/ x = H_nie \/ x = H_fuel.
 
-  Lemma cw_good cur c0 l : binv votes cur -> condorcet_winner (pairwise cur) = c0 :: l -> bgood (H_ok [Cand c0]).
+  (* what the elimination loop keeps: a well-formed restriction of the profile to two or more of its candidates *)
+  Definition winv (cur : rvotes) : Prop :=
+    wf_votes cur = true /\ (forall x, In x (Kc cur) -> In x (cands_of votes)) /\ 2 <= length (Kc cur).
+
+  Lemma cw_good cur c0 l : winv cur -> condorcet_winner (pairwise cur) = c0 :: l -> bgood (H_ok [Cand c0]).
   Proof.
-    intros Hb Ec. pose proof Hb as (Hwfc & HK & _). left. exists [Cand c0]. split; [reflexivity|].
+    intros (Hwfc & HK & _) Ec. left. exists [Cand c0]. split; [reflexivity|].
     destruct (cw_head cur c0 l Hwfc Ec) as [Hc _].
     apply (nform_plain (cands_of votes) [c0]); [constructor; [intros []|constructor]|].
-    intros x [<-|[]]. apply HK, candP_in_K, Hc.
+    intros x [<-|[]]. apply HK, arc_iff, candidates_pairwise_in, Hc.
   Qed.
 
-  Lemma benham_shape_loop : forall fuel cur, binv votes cur -> bgood (benham_loop true fuel votes cur).
+  Lemma winv_next cur R : winv cur -> NoDup R -> incl R (Kc cur) -> 2 <= length R -> winv (subset_votes R votes).
   Proof.
-    induction fuel as [|f IH]; intros cur Hb; pose proof Hb as (Hwfc & HK & _ & _ & (x0 & y0 & Hx0 & Hy0 & Hxy)).
-    - rewrite benham_loop_0. destruct (condorcet_winner (pairwise cur)) as [|c0 l] eqn:Ec; [right; right; reflexivity|].
+    intros (_ & HK & _) Hn Hi H2. split; [apply subset_wf, Hwf|]. split.
+    - intros x Hx. apply arc_iff, subset_cands in Hx. tauto.
+    - etransitivity; [exact H2|]. apply NoDup_incl_length; [exact Hn|]. intros x Hx. apply arc_iff, subset_cands.
+      split; [exact Hx|apply HK, Hi, Hx].
+  Qed.
+
+  Lemma benham_shape_loop sc : forall fuel cur, winv cur -> bgood (benham_loop true sc fuel votes cur).
+  Proof.
+    induction fuel as [|f IH]; intros cur Hb; pose proof Hb as (Hwfc & HK & HlenK).
+    - rewrite benham_loop_0, (benham_cw_two sc cur HlenK). destruct (condorcet_winner (pairwise cur)) as [|c0 l] eqn:Ec; [right; right; reflexivity|].
       exact (cw_good cur c0 l Hb Ec).
-    - rewrite benham_loop_S. destruct (condorcet_winner (pairwise cur)) as [|c0 l] eqn:Ec; [|exact (cw_good cur c0 l Hb Ec)].
-      assert (HlenK : 2 <= length (Kc cur)) by (apply (two_in_length _ x0 y0 Hx0 Hy0 Hxy)).
+    - rewrite benham_loop_S, (benham_cw_two sc cur HlenK).
+      destruct (condorcet_winner (pairwise cur)) as [|c0 l] eqn:Ec; [|exact (cw_good cur c0 l Hb Ec)].
       destruct (elim_nform cur Hwfc HlenK) as (rem & Ee & Hnf). rewrite Ee.
       pose proof (nform_length _ _ _ Hnf) as Hlr.
       destruct rem as [|r [|r2 rr]].
@@ -70,27 +82,48 @@ Section BENHAM_SHAPE.
         destruct (elim_spec cur _ Hwfc Ee Et) as (R & E1 & E2 & E3 & E4). rewrite E1, plain_map_cand.
         assert (H2 : 2 <= length R).
         { assert (El : length (r :: r2 :: rr) = length R) by (rewrite E1, map_length; reflexivity). cbn [length] in El. lia. }
-        apply IH. exact (binv_next votes Hwf cur R Hb E2 E3 (survive votes Hwf Hne cur R Hb Ec E2 E3 E4) H2).
+        apply IH. exact (winv_next cur R Hb E2 E3 H2).
   Qed.
 
-  (* one plain candidate of the votes, or one tie object of (the last) two or more of them; otherwise the declared refusal *)
-  Theorem benham_shape : (exists r, benham true votes = H_ok r /\ nform (cands_of votes) 1 r) \/ benham true votes = H_nie.
+  (* with two or more candidates (in particular with a pairwise contest), repaired for a single candidate or not: one plain
+     candidate of the votes, or one tie object of (the last) two or more of them; otherwise the declared refusal *)
+  Theorem benham_shape_two sc : 2 <= length (Kc votes) ->
+    (exists r, benham true sc votes = H_ok r /\ nform (cands_of votes) 1 r) \/ benham true sc votes = H_nie.
   Proof.
-    destruct (benham_shape_loop (S (S (length (Kc votes)))) votes (binv_start votes Hwf Hne)) as [H|[H|H]].
+    intros H2.
+    assert (Hs : winv votes) by (split; [exact Hwf|split; [intros x Hx; apply arc_iff, Hx|exact H2]]).
+    destruct (benham_shape_loop sc (S (S (length (Kc votes)))) votes Hs) as [H|[H|H]].
     - left. exact H.
     - right. exact H.
-    - exfalso. exact (benham_fuel true votes Hwf H).
+    - exfalso. exact (benham_fuel true sc votes Hwf H).
+  Qed.
+
+  (* the repaired Benham on EVERY profile on which somebody stands: a single candidate is elected *)
+  Theorem benham_shape : cands_of votes <> [] ->
+    (exists r, benham true true votes = H_ok r /\ nform (cands_of votes) 1 r) \/ benham true true votes = H_nie.
+  Proof.
+    intros Hne. destruct (Kc votes) as [|c [|c2 t]] eqn:EK.
+    - exfalso. destruct (cands_of votes) as [|x l] eqn:Ec; [congruence|].
+      assert (Hx : In x (Kc votes)) by (apply arc_iff; rewrite Ec; left; reflexivity). rewrite EK in Hx. exact Hx.
+    - left. exists [Cand c]. split.
+      + unfold benham. cbn [benham_loop]. unfold benham_cw. rewrite EK. reflexivity.
+      + apply (nform_plain (cands_of votes) [c]); [constructor; [intros []|constructor]|].
+        intros x [<-|[]]. apply arc_iff. rewrite EK. left. reflexivity.
+    - apply benham_shape_two. rewrite EK. cbn [length]. lia.
   Qed.
 End BENHAM_SHAPE.
 
-(* ================================================================ Tideman alternative, first tier *)
+Theorem benham_single sc votes c : Kc votes = [c] -> benham true sc votes = if sc then H_ok [Cand c] else benham true false votes.
+Proof. intros EK. destruct sc; [|reflexivity]. unfold benham. cbn [benham_loop]. unfold benham_cw. rewrite EK. reflexivity. Qed.
+
+(* ================================================================ Tideman alternative, one tier *)
 Lemma has_tie_one_cand (r : res C) : has_tie [r] = false -> exists w, r = Cand w.
 Proof. destruct r as [w|l]; [intros _; exists w; reflexivity|discriminate]. Qed.
 
 (* the tier loop hands back a plain candidate, or stops with NotImplementedError / IndexError (/ the model's fuel) *)
-Lemma tier_outcome : forall fuel round,
-  (exists w, tideman_tier true fuel round = inl (Cand w)) \/
-  tideman_tier true fuel round = inr H_nie \/ tideman_tier true fuel round = inr H_index \/ tideman_tier true fuel round = inr H_fuel.
+Lemma tier_outcome sc : forall fuel round,
+  (exists w, tideman_tier true sc fuel round = inl (Cand w)) \/
+  tideman_tier true sc fuel round = inr H_nie \/ tideman_tier true sc fuel round = inr H_index \/ tideman_tier true sc fuel round = inr H_fuel.
 Proof.
   induction fuel as [|f IH]; intros round.
   - destruct round; [right; left; reflexivity|right; right; right; reflexivity].
@@ -100,14 +133,14 @@ Proof.
       let x := match eliminate_one (subset_votes sset round) with
                | None => inr H_index
                | Some rem => if true && has_tie rem then inr H_nie
-                             else match rem with [r0] => inl r0 | _ => tideman_tier true f (subset_votes (plain rem) (subset_votes sset round)) end
+                             else match rem with [r0] => inl r0 | _ => tideman_tier true sc f (subset_votes (plain rem) (subset_votes sset round)) end
                end in
       (exists w, x = inl (Cand w)) \/ x = inr H_nie \/ x = inr H_index \/ x = @inr (res C) hres H_fuel).
     { intros sset. cbv zeta. destruct (eliminate_one (subset_votes sset round)) as [rem|]; [|right; right; left; reflexivity].
       cbn [andb]. destruct (has_tie rem) eqn:Et; [right; left; reflexivity|].
       destruct rem as [|r0 [|r1 rr]]; [apply IH| |apply IH].
       destruct (has_tie_one_cand r0 Et) as (w & ->). left. exists w. reflexivity. }
-    destruct (smith_schwartz (pairwise round) true) as [|s [|s2 ss]]; [apply Hgen|left; exists s; reflexivity|apply Hgen].
+    destruct (winner_set sc round) as [|s [|s2 ss]]; [apply Hgen|left; exists s; reflexivity|apply Hgen].
 Qed.
 
 Lemma forallb_false {X} (f : X -> bool) l : forallb f l = false -> exists x, In x l /\ f x = false.
@@ -118,33 +151,6 @@ Proof.
 Qed.
 
 Definition one_candidate (votes : rvotes) (w : C) : Prop := forall c, In c (cands_of votes) -> c = w.
-
-(* every outcome of TidemanAlternative.evaluate (repaired elimination step): the tier winner alone - a plain candidate of the
-   votes - when one seat is asked for (or nobody else stands); the declared refusal NotImplementedError; IndexError (see
-   tideman_no_index); and, for more seats than one with another candidate standing, the TypeError of the unimplemented
-   further tiers *)
-Theorem tideman_outcomes votes n : wf_votes votes = true ->
-  (exists w, tideman_alt true votes n = H_ok [Cand w] /\ In w (cands_of votes) /\ (n = 1 \/ one_candidate votes w)) \/
-  tideman_alt true votes n = H_nie \/ tideman_alt true votes n = H_index \/
-  (tideman_alt true votes n = H_type /\ n <> 1 /\ 2 <= length (cands_of votes)).
-Proof.
-  intros Hwf. pose proof (tideman_fuel true votes n Hwf) as Hfuel. unfold tideman_alt in *.
-  set (fuel := S (S (length (Kc votes)))) in *.
-  destruct (tier_outcome fuel votes) as [(w & Et)|[Et|[Et|Et]]]; rewrite Et in *;
-    [|right; left; reflexivity|right; right; left; reflexivity|congruence].
-  assert (Hw : In w (cands_of votes)) by (apply (tier_in true (cands_of votes) fuel votes w Hwf (fun x H => H) Et)).
-  assert (Hm : cmem w (Kc votes) = true) by (apply cmem_iff, arc_iff, Hw).
-  rewrite Hm. destruct (Nat.eqb 1 n) eqn:En; cbn [orb].
-  - left. exists w. split; [reflexivity|]. split; [exact Hw|]. left. apply Nat.eqb_eq in En. lia.
-  - apply Nat.eqb_neq in En. destruct (forallb (fun c => ceqb c w) (Kc votes)) eqn:Ea.
-    + left. exists w. split; [reflexivity|]. split; [exact Hw|]. right. intros c Hc.
-      rewrite forallb_forall in Ea. apply Hybrids_proofs.ceqb_eq, Ea, arc_iff, Hc.
-    + right. right. right. split; [reflexivity|]. split; [lia|].
-      assert (Hex : exists c, In c (cands_of votes) /\ c <> w).
-      { destruct (forallb_false _ _ Ea) as (c & Hc & Hcw). exists c. split; [apply arc_iff, Hc|].
-        intros ->. rewrite Hybrids_proofs.ceqb_refl in Hcw. discriminate. }
-      destruct Hex as (c & Hc & Hcw). apply (two_in_length _ c w Hc Hw Hcw).
-Qed.
 
 (* ================================================================ Baldwin (Model/Elimination.v) *)
 From VL Require Import Model.Elimination.
